@@ -106,14 +106,16 @@ def decode_one(method, props, data, out_size, password):
         import brotli
         if data[:4] == b"\x50\x2a\x4d\x18":
             raise RefError("unsupported coder: brotli-mt skippable frames")
-        return brotli.decompress(data)
+        # py7zr ends its brotli streams with flush(), not finish(): decode incrementally and let the
+        # declared size decide (a one-shot decompress would demand the final-block marker)
+        return brotli.Decompressor().process(data)
     if method == "030401":
         import pyppmd
         order, mem = struct.unpack("<BL", props[:5])
         d = pyppmd.Ppmd7Decoder(order, mem)
         out = d.decode(data, out_size)
-        while len(out) < out_size and d.needs_input:
-            more = d.decode(b"\0", out_size - len(out))
+        while len(out) < out_size:
+            more = d.decode(b"\0" if d.needs_input else b"", out_size - len(out))
             if not more:
                 break
             out += more
